@@ -791,6 +791,12 @@ def run(ctx):
     rule_builders(ctx)
     rule_nested(ctx)
     rule_nested_fresh(ctx)
+    from .common import rule_requests_built_per_call
+    R = "request-from-arguments"
+    ctx.rep.rule(R, "the values of an API call reach its request builder: every request the client layer itself sends (FindCoordinator, Metadata) is "
+                    "constructed in the call that sends it, and coordinator_lookup passes its own key and type to the builder -- version selection "
+                    "and the refusal to drop a value the chosen version cannot express act on the values of THIS call")
+    rule_requests_built_per_call(ctx, R)
     rule_evolution(ctx)
     rule_layout(ctx)
     rule_codec_symmetry(ctx)
